@@ -57,12 +57,27 @@ def main():
             if pid in ("C01", "C02", "C03", "C04", "C06", "C07", "C08", "C09", "C10", "C12", "C13"):
                 text += (" Also: the same driver on a second declaration shape of the harness world (other declaration order, ids 0/7/8/9, "
                          "reversed column lists so that shared components sit at different column positions, a 9-column archetype), with "
-                         "packed 17/19-byte and 4 KiB components, quiet bursts without intermediate observation, partially consumed "
-                         "iterators, archetype-level clone_from with faults.")
+                         "packed 17/19-byte and 4 KiB components and one without drop glue (Clone calls counted), quiet bursts without "
+                         "intermediate observation, partially consumed iterators and positional adaptors, closures of several body shapes "
+                         "(block, bare method call, bare function call, match, early return) with captured variables named like the macros' "
+                         "locals, creation through a user conversion with injected conversion panics, archetype-level clone_from with faults, "
+                         "a refill of every archetype to exactly its capacity and a leaked runtime-borrow guard at the end of every history.")
             if pid in ("C06", "C07"):
                 text += " Also: every MatchMC program through the real generators (a wrong matched set of a loop macro counts against this property)."
             if pid in ("C03", "C04", "C10"):
                 text += " Thorough tier: short histories of the driver under the Miri interpreter."
+            if pid in ("C09", "C01"):
+                text += " Also: direct and entity handles probed after 1 .. 2^24+256 really performed removals / recyclings (capacity engine)."
+            if pid == "C11":
+                text += " Clone is enumerated as inner leaf and as OUTER access (the body runs from inside a component's Clone::clone while clone holds the archetype's columns)."
+            if pid == "C14":
+                text += " Also: the documented EcsError variant of every failing conversion (undeclared direct ids through a second world type), and a 256-archetype world (dispatch and Select* for every id)."
+            if pid == "C15":
+                text += " Also: the declaration-size boundary (256 archetypes compiled and exercised, 257 rejected; 16-component archetype exercised column by column, 17 rejected)."
+            if pid == "C17":
+                text += " Also: the world-level event iterators of a 256-archetype world with size_hint at every position."
+            if pid == "C19":
+                text += " Also: the maximum arity under 32_components (32 components exercised column by column, 33 rejected), and the rule that the harness, which compiles in the default configuration, must compile in every other one."
             if pid == "C16":
                 text += " Also: same-name alternatives (two archetypes, or two components of one archetype, carrying the same name under exclusive predicates)."
             checks.append({
